@@ -415,12 +415,71 @@ class ClientSys:
             o.append(['bind'])
         else:
             o += [['bind_end'], ['bind_raise']]
+        if self.p.get('narrow'):
+            return o + self._narrow_ops()
         if 'node' in self.fams:
             o += self._node_ops()
         if 'buf' in self.fams:
             o += self._buf_ops()
         if 'bus' in self.fams:
             o += self._bus_ops()
+        return o
+
+    def _narrow_ops(self):
+        """life-cycle alphabet for the deep runs: one or two variants of every
+        state-changing operation plus a few emitting ones (the argument
+        variants are covered by the wide, shallower runs)"""
+        o = []
+        if 'node' in self.fams:
+            nn = len(self.nodes)
+            ngroups = sum(1 for n in self.nodes if n['kind'] == 'group')
+            if ngroups < self.max['group']:
+                o.append(['g_new', 'Group', None, 'addToHead'])
+                if nn:
+                    o.append(['g_new', 'ParGroup', ['n', 0], 'addAfter'])
+                    o.append(['g_new', 'Group', ['n', nn - 1],
+                              'addReplace'])
+            if nn - ngroups < self.max['synth']:
+                o.append(['s_new', 'init', None, 'addToTail', 'pair'])
+                if nn:
+                    o.append(['s_new', 'paused', ['n', 0], 'addToHead',
+                              'list'])
+                    o.append(['s_replace', ['n', nn - 1], True, 'none'])
+                    o.append(['s_replace', ['n', nn - 1], False, 'none'])
+                for name in ('objs', 'abus'):
+                    if self._have(ARG_TEMPLATES[name]):
+                        o.append(['s_new', 'init', None, 'addToHead', name])
+            for k in range(nn):
+                o += [['free', k, True], ['free', k, False],
+                      ['set', k, 'pair'], ['run', k, False],
+                      ['release', k, None]]
+                if nn > 1:
+                    o.append(['mv_after', k, (k + 1) % nn])
+                for name in ('objs', 'cmap'):
+                    if self._have(ARG_TEMPLATES[name]):
+                        o.append(['set', k, name])
+                if self._have(MAP_ARGS['bus']):
+                    o += [['map', k, 'bus'], ['mapn', k, 'two']]
+        if 'buf' in self.fams:
+            if len(self.bufs) < self.max['buf']:
+                o += [['b_new', 1024, 1, 'none'], ['b_new', 512, 2, 'fn'],
+                      ['b_consec', 2, True], ['b_consec', 3, True]]
+            for e, ent in enumerate(self.bufs):
+                if ent['state'] == 'stale':
+                    continue
+                o += [['b_free', e, 'none'], ['b_zero', e, 0],
+                      ['b_set', e, len(ent['ids']) - 1]]
+                if len(ent['ids']) > 1:
+                    o.append(['b_free_rev', e])
+            o.append(['b_free_all'])
+        if 'bus' in self.fams:
+            if len(self.buses) < self.max['bus']:
+                o += [['bus_new', 'c', 2], ['bus_new', 'c', 1],
+                      ['bus_new', 'a', 1]]
+            for k, b in enumerate(self.buses):
+                o.append(['bus_free', k])
+                if b['rate'] == 'c':
+                    o += [['c_set', k, 2], ['c_fill', k]]
         return o
 
     def _targets(self):
@@ -572,10 +631,8 @@ class ClientSys:
             exc = e
             res = None
         expected = []
-        fin = None
         try:
             if exc is None:
-                fin = plan['done'](res) if 'done' in plan else None
                 expected = plan['expect'](res) if callable(plan['expect']) \
                     else plan['expect']
             elif plan.get('may_raise'):
@@ -1471,8 +1528,12 @@ def run_bfs(ctx, params, depth, batch=8):
                       if f[2] and f[0] is not None),
                      key=lambda h: core.canon(h))
         if level >= min(depth - 1, 3):
-            for h in nxt:
-                if len(ctx.samples) >= 4:
+            for h in sorted((f[0] for f in found.values()
+                             if f[1] and f[2] and f[0] is not None),
+                            key=lambda h: core.canon(h)):
+                if len(ctx.samples) >= 12 or \
+                        sum(1 for x in ctx.samples
+                            if x['params'] == params) >= 2:
                     break
                 ctx.samples.append({'system': system, 'params': params,
                                     'history': h})
@@ -1549,7 +1610,10 @@ def main(ctx):
         'scalar, list, tuple, dict, bus, buffer and node arguments, Buffer '
         'single/consecutive allocation, use, free, free_all, Control/Audio '
         'bus allocation, use, free, bind()/exit/exit-by-exception) on the '
-        'real objects in NRT mode; after every step the decoded wire is '
+        'real objects in NRT mode: wide alphabets (all argument variants) to '
+        'depth 3-5 per object family and mixed, plus a narrow life-cycle '
+        'alphabet (create/free/replace/bind and a few emitting operations) to '
+        'depth 5-6; after every step the decoded wire is '
         'compared with the command reference and a set-of-ids model. States '
         'are deduplicated on model state + allocator contents + pending '
         'bundle. Non-trivial = some object (node, buffer group, bus, bind '
@@ -1573,13 +1637,20 @@ def main(ctx):
         q = dict(p)
         q['bind_open'] = True
         return q
+    def narrow(p, mx):
+        return {'fams': p['fams'], 'max': mx, 'narrow': True}
+    n_node = narrow(fam_node, {'group': 2, 'synth': 2})
+    n_buf = narrow(fam_buf, {'buf': 3})
+    n_mixed = narrow(mixed, {'group': 1, 'synth': 1, 'buf': 1, 'bus': 1})
     if ctx.tier == 'quick':
         plan = [(fam_node, 4), (fam_buf, 4), (fam_bus, 4), (mixed, 3),
                 (opened(fam_node), 3), (opened(fam_buf), 3),
-                (opened(fam_bus), 3), (opened(mixed), 3)]
+                (opened(fam_bus), 3), (opened(mixed), 3),
+                (n_node, 5), (n_buf, 5), (n_mixed, 4)]
     else:
-        plan = [(fam_node, 5), (fam_buf, 5), (fam_bus, 5), (mixed, 4),
-                (opened(fam_node), 4), (opened(fam_buf), 4),
-                (opened(fam_bus), 4), (opened(mixed), 4)]
+        plan = [(fam_node, 4), (fam_buf, 5), (fam_bus, 5), (mixed, 4),
+                (opened(fam_node), 3), (opened(fam_buf), 4),
+                (opened(fam_bus), 4), (opened(mixed), 3),
+                (n_node, 6), (n_buf, 6), (n_mixed, 6)]
     for params, depth in plan:
         run_bfs(ctx, params, depth)
